@@ -91,6 +91,8 @@ done = set()
 if os.path.exists(OUT):
     for l in open(OUT):
         done.add(l.split('\t')[0])
+TEST_TIMEOUT = int(os.environ.get('MUT_TEST_TIMEOUT', '400'))   # the unchanged suite takes 20-40 s
+N_RESULT_LINES = int(os.environ.get('MUT_RESULT_LINES', '9'))   # test binaries + doc-test runs of the unchanged workspace
 STRIDE = int(os.environ.get('MUT_STRIDE', '1'))
 OFFSET = int(os.environ.get('MUT_OFFSET', '0'))
 for rel in FILES:
@@ -105,13 +107,17 @@ for rel in FILES:
         if mid in done:
             continue
         open(path, 'w').write(src[:a] + new + src[b:])
+        detail = ''
         try:
             rc, out = sh('cargo build --offline -j6 2>&1 | tail -5', cwd=W, timeout=600)
             if 'error' in out:
                 verdict = 'NOCOMPILE'
             else:
-                rc, out = sh('cargo test --workspace --offline -j6 2>&1 | grep -E "^test result|error(\\[|:)|FAILED|panicked" | head -20', cwd=W, timeout=1500)
-                if rc == 124 or 'FAILED' in out or 'error' in out or 'failed' in out or 'test result' not in out:
+                # `timeout` signals the whole process group, so a test binary that no longer terminates is killed as well
+                rc, out = sh('timeout -k 10 %d cargo test --workspace --offline -j6 2>&1 | grep -E "^test result|error(\\[|:)|FAILED|panicked|Terminated" | head -20' % TEST_TIMEOUT, cwd=W, timeout=TEST_TIMEOUT + 60)
+                # note: every passing summary line reads "... 0 failed; ...", so only a non-zero count means failure
+                if rc == 124 or 'FAILED' in out or 'error' in out or 'panicked' in out or re.search(r'\b[1-9]\d* failed', out) \
+                        or 'test result' not in out or out.count('test result') < N_RESULT_LINES:
                     verdict = 'KILLED-BY-TESTS'
                 else:
                     verdict = ''
@@ -120,11 +126,16 @@ for rel in FILES:
                         v = [l for l in o.splitlines() if l.startswith('VIOLATION')]
                         if v:
                             verdict = 'CAUGHT %s %s' % (p, 'no-input' if 'no-failing-input-found' in v[0] else 'input')
+                            try:
+                                d = json.load(open(os.path.join(V, re.search(r'replay=(\S+)', v[0]).group(1))))
+                                detail = '%s | %s' % (d.get('kind'), str(d.get('input') or d.get('first_disagreeing_case') or d.get('theorem_or_suite') or d.get('log'))[:300].replace('\n', ' ').replace('\t', ' '))
+                            except Exception as e:
+                                detail = 'replay unreadable: %r' % e
                             break
                     if not verdict:
                         verdict = 'SURVIVED ' + ','.join(props)
         finally:
             open(path, 'w').write(src)
         with open(OUT, 'a') as f:
-            f.write('%s\t%s\t%s\n' % (mid, verdict, src[src.rfind(chr(10), 0, a) + 1:src.find(chr(10), a)].strip()[:120]))
+            f.write('%s\t%s\t%s\t%s\n' % (mid, verdict, src[src.rfind(chr(10), 0, a) + 1:src.find(chr(10), a)].strip()[:120], detail))
         print(mid, verdict, flush=True)
